@@ -1,8 +1,10 @@
 /-
   M9c — the token re-typing hook of `Parser.parse` (parser.py): while the interactive parser is fed, an unquoted
-  word directly after the token text `SYMBOL` that is not one of SYMBOL_ATTRIBUTES, and the word GRID directly after
-  the token text `NAME`, are re-typed to UNQUOTED_STRING_VALUE.  `prev` is the text of the top of Lark's value stack
-  when it is a token (`none`: empty stack — the first token of the input — or a tree on top).
+  word directly after the keyword SYMBOL (in any letter case: the previous token is upper-cased first) that is not one
+  of SYMBOL_ATTRIBUTES, the word GRID directly after the keyword NAME and the word FEATURE directly after the keyword
+  IMAGEMODE are re-typed to UNQUOTED_STRING_VALUE.
+  `prev` is the text of the top of Lark's value stack when it is a token (`none`: empty stack — the first token of the
+  input — or a tree on top).
 -/
 import Mappy.Base
 import Mappy.Gen.Vocab
@@ -13,10 +15,13 @@ def unq : Str := s%"UNQUOTED_STRING"
 def unqValue : Str := s%"UNQUOTED_STRING_VALUE"
 
 def retypeWith (symbolAttrs : List Str) (prev : Option Str) (ty text : Str) : Str :=
+  let prevU := prev.map upper
   if ty = unq then
-    if prev = some s%"SYMBOL" && !symbolAttrs.contains (upper text) then unqValue else ty
+    if prevU = some s%"SYMBOL" && !symbolAttrs.contains (upper text) then unqValue else ty
   else if ty = s%"GRID" then
-    if prev = some s%"NAME" then unqValue else ty
+    if prevU = some s%"NAME" then unqValue else ty
+  else if ty = s%"FEATURE" then
+    if prevU = some s%"IMAGEMODE" then unqValue else ty
   else ty
 
 def retype (prev : Option Str) (ty text : Str) : Str := retypeWith Gen.symbolAttributes prev ty text
